@@ -208,7 +208,7 @@ def run_e2e(chk, tmp):
     return sub_calls
 
 
-def run(chk):
+def _component_run(chk):
     proofs_ok = core.standard_proof_phase(chk, "C04", gen_needed=("ResultGen",))
     logging.disable(logging.CRITICAL)
     tmp = tempfile.mkdtemp(prefix="verif_c04_")
@@ -254,7 +254,7 @@ def run(chk):
                         "single-node batches (is_manager_node = True)"]
 
 
-def replay(path):
+def _component_replay(path):
     core.ensure_env()
     logging.disable(logging.CRITICAL)
     obj = json.load(open(path))
@@ -283,3 +283,24 @@ def replay(path):
         return 1 if probs else 0
     finally:
         shutil.rmtree(tmp, ignore_errors=True)
+
+
+# ------------------------------------------------------------------------------------------------
+# system level (added by the coordinator): the real code in the virtual cluster, impl traces accepted
+# by System.step, Coq monitors and Python oracles (harness/syscheck.py)
+def run(chk):
+    _component_run(chk)
+    from harness import syscheck
+    syscheck.system_phase(chk, "C04", {'plain': 8, 'sbatchfail': 1, 'local': 1}, n_quick=120, n_thorough=2500, also=())
+
+
+def replay(path):
+    import json as _json
+    try:
+        obj = _json.load(open(path))
+    except Exception:  # noqa
+        obj = {}
+    if isinstance(obj, dict) and "scenario" in obj and "schedule" in obj and "plan" in obj:
+        from harness import syscheck
+        return syscheck.replay_case(path)
+    return _component_replay(path)
